@@ -9,6 +9,8 @@ Verdict per trace:
   ok                      strict accepts, no invariant violated
   ("violation", inv, l)   an invariant of the property fails on the state reached after l events
                           (decided on the loose reconstruction whenever strict did not accept)
+                          (invariants with an open known finding are reported by the spec through
+                          <<"INVFAIL", name, tid, l>> prints instead of stopping the batch)
   ("drift", l)            strict stops accepting at event l but the reconstructed execution satisfies every
                           invariant: the code differs from the model in a way the property does not constrain
 """
@@ -36,7 +38,7 @@ def _run(area, module, cfg, traces, idxs, progress=False, workers=4, timeout=900
             workers=workers,
             env=dict(env or {}, TRACE_FILE=path, TRACE_PROGRESS="1" if progress else "0"),
             timeout=timeout,
-            collect=("ACCEPT", "AT"),
+            collect=("ACCEPT", "AT", "INVFAIL"),
             heap="6g",
         )
     finally:
@@ -48,9 +50,14 @@ def _run(area, module, cfg, traces, idxs, progress=False, workers=4, timeout=900
         raise tlc.MachineryError("trace validation %s/%s: TLC failed: %s\n%s" % (module, cfg, r.error, r.out[-3000:]))
     accepted = set()
     reached = {}
+    r.soft = {}  # trace index -> (invariant reported by the spec's INVFAIL print, first position)
     for t in r.printed:
         if t[0] == "ACCEPT":
             accepted.add(idxs[t[1] - 1])
+        elif t[0] == "INVFAIL":
+            i = idxs[t[2] - 1]
+            if i not in r.soft or t[3] < r.soft[i][1]:
+                r.soft[i] = (t[1], t[3])
         elif t[0] == "AT":
             i = idxs[t[1] - 1]
             reached[i] = max(reached.get(i, 0), t[2])
@@ -83,6 +90,7 @@ class Validator:
 
         accepted = set()
         vio = []
+        self.soft = getattr(self, "soft", {})
         chunks = [idxs[a : a + self.chunk] for a in range(0, len(idxs), self.chunk)]
         with ThreadPoolExecutor(self.parallel) as pool:
             first = list(pool.map(lambda c: _run(self.area, self.module, cfg, traces, c, workers=self.workers, env=self.env), chunks))
@@ -92,6 +100,9 @@ class Validator:
                 self.tlc_results.append((cfg, r))
                 if bad is None:
                     accepted |= acc
+                    for i, sv in r.soft.items():
+                        if i in acc:
+                            self.soft[(cfg, i)] = sv
                     break
                 vio.append(bad)
                 if len(vio) >= findings_left:
@@ -112,6 +123,9 @@ class Validator:
         accepted, vio, cut = self._sweep(self.strict_cfg, traces, idxs, verdicts, self.max_findings)
         for i, inv, l in vio:
             verdicts[i] = ("violation", inv, l)
+        for i in accepted:
+            if (self.strict_cfg, i) in self.soft and i not in verdicts:
+                verdicts[i] = ("violation",) + tuple(self.soft[(self.strict_cfg, i)])
         if cut:
             return verdicts, len(accepted) + len(vio)
         rest = [i for i in idxs if i not in accepted and i not in verdicts]
@@ -124,6 +138,9 @@ class Validator:
             validated += len(lacc) + len(lvio)
             for i in rest:
                 if i in verdicts:
+                    continue
+                if i in lacc and (self.loose_cfg, i) in self.soft:
+                    verdicts[i] = ("violation",) + tuple(self.soft[(self.loose_cfg, i)])
                     continue
                 if i in lacc:
                     # where did strict stop?  (only for the first few: one JVM each)
